@@ -33,6 +33,14 @@ def main():
     wt = tempfile.mkdtemp(prefix="pyvc_seed_")
     os.rmdir(wt)
     res = {"seed": seed, "at": time.strftime("%Y-%m-%d %H:%M:%S")}
+    prev = os.path.join(seed, "eval.json")
+    if not a.tests and os.path.exists(prev):
+        try:
+            old = json.load(open(prev))
+            if "tests" in old:
+                res["tests"] = dict(old["tests"], note="test-suite result carried over from the evaluation at %s" % old.get("at"))
+        except Exception:
+            pass
     try:
         rc, out = sh(["git", "-C", "/repo", "worktree", "add", "--detach", wt, "HEAD"])
         assert rc == 0, out
